@@ -186,7 +186,11 @@ fn sub_csv(c: &mut Case) -> CaseResult {
         fields.push(LField { name: format!("c{}{}", i, tail), ty, nullable });
     }
     let rows = gen_rows(&mut c.tape);
-    let vcfg = ValCfg { nan: false, ..ValCfg::default() };
+    let long = c.tape.chance(80);
+    if long {
+        c.class("long-values");
+    }
+    let vcfg = ValCfg { nan: false, max_str: if long { 1100 } else { 40 }, ..ValCfg::default() };
     let mut needs_quote = false;
     let mut cols: LBatch = vec![];
     for f in &fields {
@@ -320,7 +324,13 @@ fn sub_json(c: &mut Case) -> CaseResult {
     let fsl_nested = |ty: &LType| ty.any(&|x| matches!(x, LType::FixedList(f, _) if !f.nullable && (f.ty.is_nested() || matches!(f.ty, LType::Ree { .. }))));
     let fields = gen_fields(&mut c.tape, &cfg, ncols, &|ty| (json_type_ok(ty) && !fsl_nested(ty)) || (strict && !ty.any(&|x| matches!(x, LType::Union { .. } | LType::Dict { .. }))));
     let rows = gen_rows(&mut c.tape);
-    let vcfg = ValCfg { nan: false, max_str: 16, max_list: 4, ..ValCfg::default() };
+    // a share of the cases carries long strings / binary values (lengths next to 64, 128, 256, 1024: scratch-buffer and
+    // block-size boundaries of the decoders)
+    let long = c.tape.chance(80);
+    if long {
+        c.class("long-values");
+    }
+    let vcfg = ValCfg { nan: false, max_str: if long { 1100 } else { 16 }, max_list: 4, ..ValCfg::default() };
     let raw = gen_lbatch(&mut c.tape, &fields, rows, &vcfg);
     // finite floats only; a share of the strings replaced by text that needs escaping
     let mut escapes = false;
